@@ -17,12 +17,16 @@ N == Len(Tr)
 VARIABLES l, sc, s, cnt
 Tags(conds) == { c[2] : c \in { x \in conds : x[1] } }
 S0 == [added |-> {}, done |-> {}, closed |-> {}, inh |-> {}, lclosed |-> FALSE, cancelled |-> FALSE, opclosed |-> FALSE, ret |-> FALSE,
-       now |-> 0, dl0 |-> << >>, fresh |-> {}, bad |-> {}, blocked |-> FALSE]
+       now |-> 0, dl0 |-> << >>, fresh |-> {}, bad |-> {}, blocked |-> FALSE, post |-> 0]
 Get(f, k, d) == IF k \in DOMAIN f THEN f[k] ELSE d
 Put(f, k, v) == [x \in DOMAIN f \cup {k} |-> IF x = k THEN v ELSE f[x]]
 
 Step(e) ==
-   CASE e.e = "add"    -> [s EXCEPT !.added = @ \cup {e.c}, !.fresh = @ \cup {e.c}]
+   CASE e.e = "add"    -> [s EXCEPT !.added = @ \cup {e.c}, !.fresh = @ \cup {e.c}, !.post = IF s.cancelled THEN @ + 1 ELSE @,
+                                    \* Lifecycle!PollsContextBetweenAccepts: the Accept that was blocked when the cancellation came may
+                                    \* still take one connection; a second one means the loop does not poll its context between accepts
+                                    \* and a steady arrival keeps Serve from ever returning
+                                    !.bad = @ \cup Tags({ << s.cancelled /\ s.post >= 1, "C17" >> })]
      [] e.e = "done"   -> [s EXCEPT !.done = @ \cup {e.c},
                                     !.bad = @ \cup Tags({ << s.ret, "C17" >> })]            \* a goroutine finishing after Serve returned
      [] e.e = "cl"     -> [s EXCEPT !.closed = @ \cup {e.c}]
